@@ -8,6 +8,7 @@ import numpy as np
 import torch
 from hypothesis import strategies as st
 
+from vp.core import engine
 from vp.core.engine import Obligation, Property
 from vp.gen import agents as ag
 from vp.gen import histories as hist
@@ -212,6 +213,85 @@ def run_faithful_independent(case, ctx):
                         "w": who, "p": prog[:2]})
 
 
+def _rms_state(w):
+    r = getattr(w, "obs_rms", None)
+    if r is None:
+        return None
+    items = r.items() if isinstance(r, dict) else enumerate(r) if isinstance(r, (list, tuple)) else [("", r)]
+    return {str(k): [np.asarray(getattr(v, a)).astype(np.float64).tolist() for a in ("mean", "var", "count")] for k, v in items}
+
+
+def run_wrapped(case, ctx):
+    """The same clauses for an agent that lives inside the library's RSNorm wrapper (its whole history - acting, learning,
+    mutations, earlier clones - runs THROUGH the wrapper, as a population of wrapped agents is used by the training loops)."""
+    from agilerl.wrappers.agent import RSNorm
+
+    spec = case["spec"]
+    algo = spec["algo"]
+    try:
+        W = RSNorm(ag.build(spec, hp_config=ag.make_hp_config(algo)))
+        for op in case["history"]:
+            W = hist.apply_op(W, spec, op)
+    except Exception as e:  # noqa: BLE001 - establishing the precondition failed
+        ctx.label(f"wrapped-setup-failed:{type(e).__name__}")
+        return
+    P = W.agent
+    before, rms_before = T.snapshot(P), _rms_state(W)
+    with ctx.promised("C01/wrapped/clone", algo=algo):
+        C = W.clone()
+    ctx.check(type(C) is type(W), "C01/wrapped/clone_is_not_wrapped", "clone() of a wrapped agent is not wrapped", got=type(C).__name__)
+    d = T.diff(before, T.snapshot(P))
+    if d:
+        ctx.fail(f"C01/wrapped/clone_changed_parent/{_norm(d[0])}", f"clone() changed the wrapped parent: {d[0]}", diffs=d[:5])
+    resync = check_faithful(ctx, P, C.agent, algo, tag="wrapped/faithful")
+    ctx.check(_rms_state(C) == rms_before, "C01/wrapped/running_statistics_differ", "the clone's observation statistics differ from the parent's",
+              parent=rms_before, clone=_rms_state(C))
+    if not resync:
+        with ctx.promised("C01/wrapped/act", algo=algo):
+            a = ag.act_greedy(W, spec, case["obs_seed"])
+            b = ag.act_greedy(C, spec, case["obs_seed"])
+        ctx.check(np.array_equal(np.asarray(a), np.asarray(b)), "C01/wrapped/greedy_action_differs",
+                  "wrapped parent and its clone pick different greedy actions on the same observations", algo=algo,
+                  parent=np.asarray(a).tolist(), clone=np.asarray(b).tolist())
+    # independence: the clone acts, learns and is mutated; the parent (agent and statistics) must not move
+    snap, rms = T.snapshot(P), _rms_state(W)
+    try:
+        ag.act_real(C, spec, case["obs_seed"] + 1, k=2)
+        ag.seed_all(case["obs_seed"])
+        ag.learn_once(C, spec, case["obs_seed"])
+        C = hist.mutate(C, case["mut"], case["obs_seed"])
+        ag.learn_once(C, spec, case["obs_seed"] + 1)
+    except Exception as e:  # noqa: BLE001
+        ctx.label(f"wrapped-program-failed:{type(e).__name__}")
+    d = T.diff(snap, T.snapshot(P))
+    if d:
+        ctx.fail(f"C01/wrapped/independence/{_norm(d[0])}", f"acting / training / mutating the clone changed the wrapped parent: {d[0]}", diffs=d[:5])
+    ctx.check(_rms_state(W) == rms, "C01/wrapped/independence/running_statistics_shared",
+              "acting with the clone moved the parent's observation statistics")
+    ctx.label(f"wrapped:algo={algo}")
+    kinds = [o[0] + (":" + o[1] if o[0] == "mutate" else "") for o in case["history"]]
+    for k in set(kinds):
+        ctx.label(f"wrapped:history-has:{k}")
+    if "clone" in kinds and any(k.startswith("mutate:arch") for k in kinds[kinds.index("clone"):]):
+        ctx.label("wrapped:clone-then-architecture-mutation-then-clone")
+    if any(k in ("learn", "act") for k in kinds):
+        ctx.nontrivial({"w": 1, "a": algo, "o": spec.get("obs"), "h": kinds})
+
+
+@st.composite
+def wrapped_strategy(draw, tier):
+    algo = draw(st.sampled_from(engine.stratum(ag.SINGLE_DISCRETE + ag.SINGLE_CONT)))
+    spec = {"algo": algo, "obs": draw(st.sampled_from(["vector", "vector", "image"])), "obsv": draw(st.integers(0, 2)),
+            "actv": draw(st.integers(0, 2)), "seed": draw(st.integers(0, 9999)), "netact": True}
+    if algo in ag.SINGLE_CONT:
+        spec["act"] = draw(st.sampled_from(["box", "box_asym"]))
+    history = draw(hist.history_strategy(4 if tier == "quick" else 8, kinds=("learn", "mutate", "clone", "act")))
+    if draw(st.booleans()):
+        # an earlier clone, then a mutation applied through the wrapper, then (in run_wrapped) the clone under test
+        history = history[:2] + [["clone"], ["mutate", draw(st.sampled_from(["arch", "arch", "act", "param"])), draw(st.integers(0, 999))]] + history[2:3]
+    return {"spec": spec, "history": history, "obs_seed": draw(st.integers(0, 999)), "mut": draw(st.sampled_from(["arch", "param", "act", "rl_hp"]))}
+
+
 def run_same_update(case, ctx):
     """From the faithful state, parent and clone compute the same update from the same batch."""
     spec = case["spec"]
@@ -253,7 +333,7 @@ def run_same_update(case, ctx):
 
 @st.composite
 def spec_strategy(draw, algos=ag.ALL_ALGOS):
-    algo = draw(st.sampled_from(algos))
+    algo = draw(st.sampled_from(engine.stratum(algos)))
     if algo in ag.BANDITS:
         fam = "vector"
     elif algo in ag.MULTI_OFF + ag.MULTI_ON:
@@ -322,6 +402,9 @@ PROPERTY = Property(
                    shrink_budget={"quick": 60, "thorough": 300}),
         Obligation("same_update", run_same_update, strategy=su_strategy,
                    examples={"quick": 30, "thorough": 300}, shards={"quick": 4, "thorough": 16},
+                   shrink_budget={"quick": 60, "thorough": 300}),
+        Obligation("wrapped_agent", run_wrapped, strategy=wrapped_strategy,
+                   examples={"quick": 25, "thorough": 250}, shards={"quick": 6, "thorough": 16},
                    shrink_budget={"quick": 60, "thorough": 300}),
     ],
     assumptions=["share_encoders drawn True/False for PPO/DDPG/TD3 (constructible since the Protocol-isinstance repair)",
